@@ -1796,26 +1796,27 @@ Proof.
   unfold fin_cell2, view_cell. cbn [wcell1 gc_elems gc_props c_name c_props c_elems].
   (* elements *)
   rewrite <- map_rev.
-  rewrite (omap_omapc _
-             (fun ep : relem * list rprop =>
+  set (g := fun ep : relem * list rprop =>
                 obind (fin_ref (q_cn st) names (fst ep)) (fun e =>
-                obind (fin_props (q_pn st) (q_ps st) (rev (snd ep))) (fun pr => Ok (e, pr))))
-             (fun ep : element * list prop => (welem (lab1 (d_textstrings d) (fst ep)), map wprop (snd ep)))
-             (fun ep' : element * list prop =>
-                (view_elem cname (fun r => existsb (bytes_eqb (cname r)) names) (fst ep'), map (view_prop cname) (snd ep')))
-             _ _ _ Ees).
-  2:{ intros [e ps] [e' ps'] Hep. cbn [fst snd] in *.
-      destruct (resolve_elem (d_cellnames d) (d_textstrings d) e) as [e1|] eqn:Ee; cbn [obnd] in Hep; [|discriminate].
-      destruct (omap (resolve_prop (d_propnames d) (d_propstrings d)) (rev ps)) as [ps1|] eqn:Ep; cbn [obnd] in Hep; [|discriminate].
-      injection Hep as <- <-.
-      rewrite (fin_ref_ok _ _ _ names _ _ (sr_cn _ _ R) Ee). cbn [obind].
-      rewrite <- map_rev. rewrite (fin_props_ok _ _ _ _ R Ep). reflexivity. }
+                obind (fin_props (q_pn st) (q_ps st) (rev (snd ep))) (fun pr => Ok (e, pr)))).
+  set (wa := fun ep : element * list prop => (welem (lab1 (d_textstrings d) (fst ep)), map wprop (snd ep))).
+  set (wb := fun ep' : element * list prop =>
+                (view_elem cname (fun r => existsb (bytes_eqb (cname r)) names) (fst ep'), map (view_prop cname) (snd ep'))).
+  assert (Hel : forall a b,
+            (fun ep : element * list prop =>
+               let? e := resolve_elem (d_cellnames d) (d_textstrings d) (fst ep) in
+               let? ps := omap (resolve_prop (d_propnames d) (d_propstrings d)) (rev (snd ep)) in Some (e, ps)) a = Some b ->
+            g (wa a) = Ok (wb b)).
+  { intros [e ps] [e' ps'] Hep. cbn [fst snd] in Hep. unfold g, wa, wb. cbn [fst snd].
+    destruct (resolve_elem (d_cellnames d) (d_textstrings d) e) as [e1|] eqn:Ee; cbn [obnd] in Hep; [|discriminate].
+    destruct (omap (resolve_prop (d_propnames d) (d_propstrings d)) (rev ps)) as [ps1|] eqn:Ep; cbn [obnd] in Hep; [|discriminate].
+    injection Hep as <- <-.
+    rewrite (fin_ref_ok _ _ _ names _ _ (sr_cn _ _ R) Ee). cbn [obind].
+    rewrite <- map_rev. rewrite (fin_props_ok _ _ _ _ R Ep). reflexivity. }
+  rewrite (omap_omapc _ g wa wb Hel _ _ Ees).
   cbn [obind].
   (* properties *)
-  assert (Hp : fin_props (q_pn st) (q_ps st)
-                 (rev (map wprop (c_props c) ++
-                       match c_name c with NNum k => map wprop (cn_props_of (d_cn_props d) k) | NName _ => [] end))
-               = Ok (map (view_prop cname) (tabp ++ own))).
+  match goal with |- obind ?x _ = _ => assert (Hp : x = Ok (map (view_prop cname) (tabp ++ own))) end.
   { rewrite rev_app_distr, map_app. unfold fin_props. apply omapc_app.
     - destruct (c_name c) as [s|k].
       + injection Etab as <-. reflexivity.
@@ -1823,8 +1824,8 @@ Proof.
     - rewrite <- map_rev. exact (fin_props_ok _ _ _ _ R Eown). }
   rewrite Hp. cbn [obind]. f_equal. f_equal.
   (* name *)
-  unfold cell_cname, cname. cbn [gc_name].
-  destruct (c_name c) as [s|k]; cbn [resolve_nref raw_name] in *.
+  unfold cell_cname, cname, wcell1. cbn [gc_name].
+  destruct (c_name c) as [s|k]; cbn [resolve_nref raw_name name_of] in *.
   - injection En as <-. reflexivity.
   - destruct (lookup (d_cellnames d) k); [|discriminate]. injection En as <-. reflexivity.
 Qed.
@@ -1835,8 +1836,8 @@ Proof.
   destruct (omap _ (rev (c_props c))); cbn [obnd]; [|discriminate].
   match goal with |- obnd ?x _ = _ -> _ => destruct x end; cbn [obnd]; [|discriminate].
   destruct (omap _ (rev (c_elems c))); cbn [obnd]; [|discriminate]. intros [= <-].
-  unfold cell_cname, cname. cbn [wcell1 gc_name c_name].
-  destruct (c_name c) as [s|k]; cbn [resolve_nref raw_name] in *.
+  unfold cell_cname, cname, wcell1. cbn [gc_name c_name].
+  destruct (c_name c) as [s|k]; cbn [resolve_nref raw_name name_of] in *.
   - injection En as <-. reflexivity.
   - destruct (lookup (d_cellnames d) k); [|discriminate]. injection En as <-. reflexivity.
 Qed.
@@ -1850,3 +1851,410 @@ Proof.
     destruct (omap f t) as [r|] eqn:E2; cbn [obnd] in Hl; [|discriminate]. injection Hl as <-.
     cbn [map]. rewrite (H _ _ E), (IH _ eq_refl). reflexivity.
 Qed.
+
+Lemma nums_rev l : nums (rev l) = rev (nums l).
+Proof.
+  unfold nums. induction l as [|c t IH]; [reflexivity|].
+  cbn [rev flat_map]. rewrite flat_map_app, IH, rev_app_distr. cbn [flat_map]. rewrite app_nil_r.
+  destruct (c_name c); reflexivity.
+Qed.
+
+Lemma finish_ok d st L : srel d st -> cov_finalize d = Some L -> finish st = Ok (view L).
+Proof.
+  intros R H. unfold cov_finalize in H.
+  destruct (omap (resolve_prop (d_propnames d) (d_propstrings d)) (map snd (d_cn_props d))) as [cnr|] eqn:Ecn;
+    cbn [obnd] in H; [|discriminate].
+  unfold finalize in H.
+  destruct (omap (resolve_prop (d_propnames d) (d_propstrings d)) (rev (d_lprops d))) as [lp|] eqn:Elp;
+    cbn [obnd] in H; [|discriminate].
+  destruct (omap (resolve_cell d) (rev (d_cells d))) as [cs|] eqn:Ecs; cbn [obnd] in H; [|discriminate].
+  injection H as <-.
+  unfold finish. rewrite (sr_cells _ _ R), <- map_rev.
+  rewrite (fin_cells1_ok d st R (rev (d_cells d)) (q_cn st) cs).
+  2:{ rewrite nums_rev. apply NoDup_rev. exact (sr_nodup _ _ R). }
+  2:{ reflexivity. }
+  2:{ exact Ecs. }
+  cbn [obind].
+  assert (Hnames : map cell_cname (map (wcell1 d) (rev (d_cells d))) = map (fun c => cname (c_name c)) cs).
+  { rewrite map_map. exact (omap_map2 _ _ _ (fun a b Hab => wcell1_cname d a b Hab) _ _ Ecs). }
+  rewrite Hnames.
+  rewrite (omap_omapc (resolve_cell d) _ (wcell1 d) (view_cell (map (fun c => cname (c_name c)) cs))
+             (fun a b Hab => fin_cell2_ok d st _ a b R Hab) _ _ Ecs).
+  cbn [obind].
+  rewrite (sr_lprops _ _ R), <- map_rev, (fin_props_ok _ _ _ _ R Elp). cbn [obind].
+  (* every property hanging off a table entry resolves *)
+  destruct (omapc_all (fin_prop (q_pn st) (q_ps st)) (all_table_props st)) as (r & Hr).
+  { intros p Hin. unfold all_table_props in Hin.
+    assert (Hempty : forall rt, props_empty rt -> table_props rt = []).
+    { intros rt He. unfold table_props. induction (t_items rt) as [|ke t IH] eqn:Et; [reflexivity|].
+      cbn [flat_map]. rewrite (He ke) by (rewrite Et; left; reflexivity). cbn [app].
+      clear IH. assert (Hall : forall ke', In ke' t -> te_props (snd ke') = []) by (intros; apply He; rewrite Et; right; assumption).
+      clear Et He. induction t as [|k2 t2 IH2]; [reflexivity|]. cbn [flat_map].
+      rewrite (Hall k2 (or_introl eq_refl)). apply IH2. intros; apply Hall; right; assumption. }
+    rewrite (Hempty _ (sr_ts_e _ _ R)), (Hempty _ (sr_pn_e _ _ R)), (Hempty _ (sr_ps_e _ _ R)), !app_nil_r in Hin.
+    unfold table_props in Hin. apply in_flat_map in Hin. destruct Hin as (ke & Hke & Hp).
+    destruct (sr_cnall _ _ R ke p Hke Hp) as (n & p0 & Hin0 & ->).
+    assert (Hin1 : In p0 (map snd (d_cn_props d))) by (apply in_map_iff; exists (n, p0); auto).
+    destruct (omap_In _ _ _ _ Ecn Hin1) as (p1 & Hp1).
+    exists (view_prop cname p1). exact (fin_prop_ok _ _ _ _ R Hp1). }
+  unfold fin_props at 1. rewrite Hr. cbn [obind].
+  unfold view. cbn [l_unit l_props l_cells]. rewrite (sr_unit _ _ R). reflexivity.
+Qed.
+
+(* ================================================================== one record *)
+Lemma srel_other d st : srel d st -> srel (upd_modal d (d_modal d) T_other) st.
+Proof. intros []. constructor; cbn; auto. Qed.
+
+Lemma existsb_nums n cells : existsb (cell_has_num n) cells = false -> ~ In n (nums cells).
+Proof.
+  induction cells as [|c t IH]; intros H Hin; [destruct Hin|].
+  cbn [existsb] in H. apply orb_false_elim in H. destruct H as [H1 H2].
+  unfold nums in Hin. cbn [flat_map] in Hin. apply in_app_or in Hin. destruct Hin as [Hin|Hin].
+  - unfold cell_has_num in H1. destruct (c_name c) as [s|k]; [destruct Hin|].
+    destruct Hin as [<-|[]]. rewrite N.eqb_refl in H1. discriminate.
+  - exact (IH H2 Hin).
+Qed.
+
+Lemma xy_rel m q (a : bool) : modal_rel m q ->
+  modal_rel (mkM a (m_rep m) (m_g m) (m_t m) (m_p m) (m_pname m) (m_pvals m))
+            (mkRM a (r_layer q) (r_dtype q) (r_tlayer q) (r_ttype q) (r_ppos q) (r_tpos q) (r_gpos q) (r_w q) (r_h q)
+                  (r_rep q) (r_text q) (r_pcell q) (r_poly q) (r_path q) (r_hw q) (r_exs q) (r_exe q) (r_ctype q)
+                  (r_rad q) (r_pname q) (r_pvals q)).
+Proof. intros []. constructor; cbn; auto. Qed.
+
+Definition step_goal (st : rstate) (id : N) (t : list N) (r : option step_result) : Prop :=
+  match r with
+  | Some (Cont d' bs') => exists st', h_record st id (mkS t None) = H_cont st' (mkS bs' None) /\ srel d' st'
+  | Some (Done L) => h_record st id (mkS t None) = H_end (Ok (view L))
+  | None => True
+  end.
+
+Lemma step_name id w ex d st t :
+  w < 4 -> srel d st ->
+  (forall s, h_record st id s = h_name st w ex s) ->
+  step_goal st id t (let? '(d', bs) := cov_add_name d w ex t in Some (Cont d' bs)).
+Proof.
+  intros Hw R Hh. destruct (cov_add_name d w ex t) as [[d' bs']|] eqn:E; cbn [obnd step_goal]; [|exact I].
+  destruct (name_step_ok _ _ _ _ _ _ _ Hw R E) as (st' & H1 & H2). exists st'. rewrite Hh. auto.
+Qed.
+
+Lemma step_elem id ptrs cov rec d st t :
+  (forall m q info bs e m' bs', modal_rel m q -> cov m (info :: bs) = Some (e, m', bs') ->
+     exists q', rec q info (mkS bs None) = ROk (welem e, q') (mkS bs' None) /\ modal_rel m' q') ->
+  (forall m, cov m [] = None) ->
+  srel d st ->
+  (forall s, h_record st id s = h_element ptrs st rec s) ->
+  step_goal st id t (cov_elem_step d (cov (d_modal d) t)).
+Proof.
+  intros Hrec Hnil R Hh. destruct (cov_elem_step d (cov (d_modal d) t)) as [[l|d' bs']|] eqn:E; cbn [step_goal]; [| |exact I].
+  - exfalso. unfold cov_elem_step in E. destruct (cov (d_modal d) t) as [[[e m] b]|]; cbn [obnd] in E; [|discriminate].
+    destruct (add_elem d e m); cbn [obnd] in E; discriminate.
+  - destruct (elem_step_ok cov rec Hrec Hnil ptrs _ _ _ _ _ R E) as (st' & H1 & H2). exists st'. rewrite Hh. auto.
+Qed.
+
+Lemma step_xy (a : bool) id d st t :
+  srel d st ->
+  (forall s, h_record st id s =
+     H_cont (set_modal st (mkRM a (r_layer (q_modal st)) (r_dtype (q_modal st)) (r_tlayer (q_modal st)) (r_ttype (q_modal st))
+                              (r_ppos (q_modal st)) (r_tpos (q_modal st)) (r_gpos (q_modal st)) (r_w (q_modal st)) (r_h (q_modal st))
+                              (r_rep (q_modal st)) (r_text (q_modal st)) (r_pcell (q_modal st)) (r_poly (q_modal st))
+                              (r_path (q_modal st)) (r_hw (q_modal st)) (r_exs (q_modal st)) (r_exe (q_modal st))
+                              (r_ctype (q_modal st)) (r_rad (q_modal st)) (r_pname (q_modal st)) (r_pvals (q_modal st)))) s) ->
+  step_goal st id t
+    (Some (Cont (upd_modal d (mkM a (m_rep (d_modal d)) (m_g (d_modal d)) (m_t (d_modal d)) (m_p (d_modal d))
+                                  (m_pname (d_modal d)) (m_pvals (d_modal d))) (d_target d)) t)).
+Proof.
+  intros R Hh. cbn [step_goal]. eexists. split; [apply Hh|]. apply srel_upd_modal; [exact R|]. apply xy_rel. exact (sr_modal _ _ R).
+Qed.
+
+Lemma step_layername id d st t :
+  srel d st ->
+  (forall s, h_record st id s = match s_string false s with
+                                | ROk _ s1 => H_cont st (skip_interval_r (skip_interval_r s1))
+                                | RCrash => H_end Crash
+                                | RHang => H_end Hang
+                                end) ->
+  step_goal st id t
+    (let? '(_, bs) := rd_string t in let? bs := skip_interval bs in let? bs := skip_interval bs in
+     Some (Cont (upd_modal d (d_modal d) T_other) bs)).
+Proof.
+  intros R Hh. destruct (rd_string t) as [[s b1]|] eqn:E1; cbn [obnd step_goal]; [|exact I].
+  destruct (skip_interval b1) as [b2|] eqn:E2; cbn [obnd step_goal]; [|exact I].
+  destruct (skip_interval b2) as [b3|] eqn:E3; cbn [obnd step_goal]; [|exact I].
+  exists st. split; [|apply srel_other; exact R].
+  rewrite Hh, (s_string_ok false _ _ _ E1), (skip_interval_ok _ _ E2), (skip_interval_ok _ _ E3). reflexivity.
+Qed.
+
+Lemma step_cell (byn : bool) id d st t :
+  srel d st ->
+  (forall s, h_record st id s =
+     match f_nref byn s with
+     | ROk nm s1 =>
+         H_cont (set_cells st
+                   (mkRM true (r_layer (q_modal st)) (r_dtype (q_modal st)) (r_tlayer (q_modal st)) (r_ttype (q_modal st))
+                         (0, 0)%Z (0, 0)%Z (0, 0)%Z (r_w (q_modal st)) (r_h (q_modal st)) (r_rep (q_modal st))
+                         (r_text (q_modal st)) (r_pcell (q_modal st)) (r_poly (q_modal st)) (r_path (q_modal st))
+                         (r_hw (q_modal st)) (r_exs (q_modal st)) (r_exe (q_modal st)) (r_ctype (q_modal st))
+                         (r_rad (q_modal st)) (r_pname (q_modal st)) (r_pvals (q_modal st)))
+                   (mkGC nm [] [] :: q_cells st) RT_cell) s1
+     | RCrash => H_end Crash
+     | RHang => H_end Hang
+     end) ->
+  step_goal st id t
+    (let? '(nm, bs) := rd_nref byn t in
+     if match nm with NNum n => existsb (cell_has_num n) (d_cells d) | NName _ => false end then None else
+     Some (Cont (upd_cells d (modal_at_cell (d_modal d)) (mkCell nm [] [] :: d_cells d) T_cell) bs)).
+Proof.
+  intros R Hh. destruct (rd_nref byn t) as [[nm b1]|] eqn:E1; cbn [obnd]; [|exact I].
+  destruct (match nm with NNum n => existsb (cell_has_num n) (d_cells d) | NName _ => false end) eqn:Ex; [exact I|].
+  cbn [step_goal]. eexists. split; [rewrite Hh, (f_nref_ok _ _ _ _ E1); reflexivity|].
+  rewrite (sr_cells _ _ R).
+  change (mkGC nm [] [] :: map wcell (d_cells d)) with (map wcell (mkCell nm [] [] :: d_cells d)).
+  apply srel_upd_cells; [exact R|apply modal0_rel|reflexivity|exact I|].
+  destruct nm as [s|n].
+  - rewrite (nums_cons_name (mkCell (NName s) [] []) _ s eq_refl). exact (sr_nodup _ _ R).
+  - rewrite (nums_cons_num (mkCell (NNum n) [] []) _ n eq_refl). constructor; [apply existsb_nums; exact Ex|exact (sr_nodup _ _ R)].
+Qed.
+
+Lemma step_property id d st t :
+  srel d st -> (id = 28 \/ id = 29) ->
+  (forall s, h_record st id s =
+     (let (oinfo, s1) := (if id =? 29 then (Some 8, s) else rd1 s) in
+      match oinfo with
+      | None => H_end Crash
+      | Some info =>
+          match m_property (q_modal st) info s1 with
+          | ROk (p, m1) s2 => H_cont (add_prop_r st p m1) s2
+          | RCrash => H_end Crash
+          | RHang => H_end Hang
+          end
+      end)) ->
+  step_goal st id t
+    (let? '(p, m', bs) := cov_property id (d_modal d) t in let? d' := cov_add_prop d p m' in Some (Cont d' bs)).
+Proof.
+  intros R Hid Hh. destruct (cov_property id (d_modal d) t) as [[[p m'] b1]|] eqn:E1; cbn [obnd]; [|exact I].
+  destruct (cov_add_prop d p m') as [d'|] eqn:E2; cbn [obnd step_goal]; [|exact I].
+  destruct Hid as [-> | ->].
+  - destruct t as [|info t]; [discriminate|].
+    destruct (rd_property_ok _ _ _ _ _ _ _ (sr_modal _ _ R) E1) as (q' & Hp & Hrel).
+    exists (add_prop_r st (wprop p) q'). split; [|exact (prop_step_ok _ _ _ _ _ _ R Hrel E2)].
+    rewrite Hh. cbn [N.eqb Pos.eqb]. unfold rd1. cbn [s_bs s_err]. rewrite Hp. reflexivity.
+  - destruct (rd_last_property_ok _ _ _ _ _ _ (sr_modal _ _ R) E1) as (q' & Hp & Hrel).
+    exists (add_prop_r st (wprop p) q'). split; [|exact (prop_step_ok _ _ _ _ _ _ R Hrel E2)].
+    rewrite Hh. cbn [N.eqb Pos.eqb]. rewrite Hp. reflexivity.
+Qed.
+
+Lemma step_end ois d st t :
+  srel d st ->
+  step_goal st 2 t (if end_ok ois t then let? l := cov_finalize d in Some (Done l) else None).
+Proof.
+  intros R. destruct (end_ok ois t); [|exact I].
+  destruct (cov_finalize d) as [L|] eqn:E; cbn [obnd step_goal]; [|exact I].
+  cbn [h_record]. rewrite (finish_ok _ _ _ R E). reflexivity.
+Qed.
+
+Lemma record_step_ok ois d st id t : srel d st -> step_goal st id t (cov_record ois d (id :: t)).
+Proof.
+  intros R. unfold cov_record. cbn [rd_byte obnd].
+  destruct id as [|p]; [cbn [step_goal]; exists st; split; [reflexivity|exact R]|].
+  repeat (destruct p as [p|p|]; try (lazymatch goal with |- step_goal _ _ _ None => exact I end)).
+  all: try (apply (step_name _ 0 false); [lia|exact R|reflexivity]).
+  all: try (apply (step_name _ 0 true); [lia|exact R|reflexivity]).
+  all: try (apply (step_name _ 1 false); [lia|exact R|reflexivity]).
+  all: try (apply (step_name _ 1 true); [lia|exact R|reflexivity]).
+  all: try (apply (step_name _ 2 false); [lia|exact R|reflexivity]).
+  all: try (apply (step_name _ 2 true); [lia|exact R|reflexivity]).
+  all: try (apply (step_name _ 3 false); [lia|exact R|reflexivity]).
+  all: try (apply (step_name _ 3 true); [lia|exact R|reflexivity]).
+  all: try (apply (step_elem _ true (cov_placement 17) (m_placement 17)); [intros; eapply rd_placement_ok; eassumption|reflexivity|exact R|reflexivity]).
+  all: try (apply (step_elem _ true (cov_placement 18) (m_placement 18)); [intros; eapply rd_placement_ok; eassumption|reflexivity|exact R|reflexivity]).
+  all: try (apply (step_elem _ true cov_text m_text); [intros; eapply rd_text_ok; eassumption|reflexivity|exact R|reflexivity]).
+  all: try (apply (step_elem _ false cov_rectangle m_rectangle); [intros; eapply rd_rectangle_ok; eassumption|reflexivity|exact R|reflexivity]).
+  all: try (apply (step_elem _ false cov_polygon m_polygon); [intros; eapply rd_polygon_ok; eassumption|reflexivity|exact R|reflexivity]).
+  all: try (apply (step_elem _ false cov_path m_path); [intros; eapply rd_path_ok; eassumption|reflexivity|exact R|reflexivity]).
+  all: try (apply (step_elem _ false (cov_trapezoid 23) (m_trapezoid 23)); [intros; eapply rd_trapezoid_ok; eassumption|reflexivity|exact R|reflexivity]).
+  all: try (apply (step_elem _ false (cov_trapezoid 24) (m_trapezoid 24)); [intros; eapply rd_trapezoid_ok; eassumption|reflexivity|exact R|reflexivity]).
+  all: try (apply (step_elem _ false (cov_trapezoid 25) (m_trapezoid 25)); [intros; eapply rd_trapezoid_ok; eassumption|reflexivity|exact R|reflexivity]).
+  all: try (apply (step_elem _ false cov_circle m_circle); [intros; eapply rd_circle_ok; eassumption|reflexivity|exact R|reflexivity]).
+  all: try (apply (step_elem _ false cov_ctrapezoid m_ctrapezoid);
+            [intros m0 q0 info0 bs0 e0 m0' bs0' Hr0 Hc0; destruct (rd_ctrapezoid_ok false _ _ _ _ _ _ _ Hr0 Hc0) as (q' & H1 & H2);
+             exists q'; split; [exact H1|exact (H2 eq_refl)]
+            |reflexivity|exact R|reflexivity]).
+  all: try (apply (step_xy true); [exact R|reflexivity]).
+  all: try (apply (step_xy false); [exact R|reflexivity]).
+  all: try (apply step_layername; [exact R|reflexivity]).
+  all: try (apply step_property; [exact R|auto|reflexivity]).
+  all: try (apply step_end; exact R).
+  - pose proof (step_cell true 13 d st t R (fun s => eq_refl)) as Hc. unfold rd_nref in Hc.
+    destruct (rd_uint t) as [[n b]|]; cbn [obnd] in *; exact Hc.
+  - pose proof (step_cell false 14 d st t R (fun s => eq_refl)) as Hc. unfold rd_nref in Hc.
+    destruct (rd_string t) as [[n b]|]; cbn [obnd] in *; exact Hc.
+Qed.
+
+(* ================================================================== the record loop and the whole file *)
+Lemma loop_ok : forall f ois d bs L st f',
+  srel d st -> cov_loop f ois d bs = Some L -> (f <= f')%nat -> r_loop f' st (mkS bs None) = Ok (view L).
+Proof.
+  induction f as [|f IH]; intros ois d bs L st f' R H Hf; [discriminate|].
+  cbn [cov_loop] in H. destruct f' as [|f']; [lia|].
+  destruct bs as [|id t]; [discriminate|].
+  pose proof (record_step_ok ois d st id t R) as Hs.
+  destruct (cov_record ois d (id :: t)) as [[l|d' bs']|]; [| |discriminate]; cbn [step_goal] in Hs.
+  - injection H as <-. cbn [r_loop]. unfold rd1. cbn [s_bs s_err]. rewrite Hs. reflexivity.
+  - destruct Hs as (st' & Hh & R'). cbn [r_loop]. unfold rd1. cbn [s_bs s_err]. rewrite Hh.
+    apply (IH ois d' bs' L st' f' R' H). lia.
+Qed.
+
+Lemma srel_init u : srel (d_init u) (q_init u).
+Proof.
+  constructor; cbn; auto.
+  - constructor; cbn; auto.
+  - intros k s H. discriminate.
+  - intros k s H. discriminate.
+  - intros k s H. discriminate.
+  - intros k s H. discriminate.
+  - intros w Hw _. destruct (w4_cases w Hw) as [-> | [-> | [-> | ->]]]; reflexivity.
+  - intros k s e H. discriminate.
+  - intros ke p [].
+  - intros ke [].
+  - intros ke [].
+  - intros ke [].
+  - constructor.
+Qed.
+
+Lemma strip_prefix_app_l p q : forall bs b1 b2,
+  strip_prefix p bs = Some b1 -> strip_prefix q b1 = Some b2 -> strip_prefix (p ++ q) bs = Some b2.
+Proof.
+  induction p as [|a p IH]; intros bs b1 b2 H1 H2; cbn [strip_prefix app] in *.
+  - injection H1 as <-. exact H2.
+  - destruct bs as [|b t]; [discriminate|]. destruct (a =? b); [|discriminate]. eapply IH; eassumption.
+Qed.
+
+Lemma version_eq v x : strip_prefix version_1_0 v = Some x -> (length v =? 3)%nat = true -> bytes_eqb v version_1_0 = true.
+Proof.
+  unfold version_1_0. intros H Hl.
+  destruct v as [|a [|b [|c [|e v]]]]; cbn in Hl; try discriminate.
+  cbn [strip_prefix] in H.
+  destruct (49 =? a) eqn:E1; [|discriminate]. destruct (46 =? b) eqn:E2; [|discriminate].
+  destruct (48 =? c) eqn:E3; [|discriminate].
+  apply N.eqb_eq in E1, E2, E3. subst. reflexivity.
+Qed.
+
+Lemma skip_uints_ok : forall k a bs l r,
+  rd_n rd_uint k bs = Some (l, r) -> fold_left (fun s (_ : nat) => snd (s_uint s)) (seq a k) (mkS bs None) = mkS r None.
+Proof.
+  induction k as [|k IH]; intros a bs l r H; cbn [rd_n] in H.
+  - injection H as <- <-. reflexivity.
+  - destruct (rd_uint bs) as [[v b1]|] eqn:E; cbn [obnd] in H; [|discriminate].
+    destruct (rd_n rd_uint k b1) as [[l0 r0]|] eqn:E2; cbn [obnd] in H; [|discriminate]. injection H as <- <-.
+    cbn [seq fold_left]. rewrite (s_uint_ok _ _ _ E). cbn [snd]. exact (IH _ _ _ _ E2).
+Qed.
+
+Theorem cov_reader_ok_lemma : forall bs L, cov_oas_decode bs = Some L -> read_oas_model bs = Ok (view L).
+Proof.
+  intros bs L H. unfold cov_oas_decode in H.
+  destruct (strip_prefix magic bs) as [b1|] eqn:Em; cbn [obnd] in H; [|discriminate].
+  destruct (rd_byte b1) as [[id b2]|] eqn:Eid; cbn [obnd] in H; [|discriminate].
+  destruct (negb (id =? 1)) eqn:E1; [discriminate|].
+  apply negb_false_iff in E1. apply N.eqb_eq in E1. subst id.
+  destruct (rd_string b2) as [[v b3]|] eqn:Ev; cbn [obnd] in H; [|discriminate].
+  destruct (strip_prefix version_1_0 v) as [x|] eqn:Ever; cbn [obnd] in H; [|discriminate].
+  destruct (negb (length v =? 3)%nat) eqn:El; [discriminate|]. apply negb_false_iff in El.
+  destruct (cov_real b3) as [[u b4]|] eqn:Eu; cbn [obnd] in H; [|discriminate].
+  destruct (rd_uint b4) as [[flag b5]|] eqn:Ef; cbn [obnd] in H; [|discriminate].
+  destruct (1 <? flag) eqn:Efl; [discriminate|].
+  destruct (if flag =? 0 then rd_count rd_uint 12 b5 else Some ([], b5)) as [[o b6]|] eqn:Eo; cbn [obnd] in H; [|discriminate].
+  unfold read_oas_model, magic_start.
+  assert (Hb1 : strip_prefix [1] b1 = Some b2).
+  { destruct b1 as [|b t]; cbn [rd_byte] in Eid; [discriminate|]. injection Eid as -> ->. reflexivity. }
+  rewrite (strip_prefix_app_l _ _ _ _ _ Em Hb1).
+  rewrite (s_string_ok false _ _ _ Ev). cbn [s_err].
+  rewrite (version_eq _ _ Ever El). cbn [negb].
+  rewrite (s_real_ok _ _ _ Eu). rewrite (s_uint_ok _ _ _ Ef).
+  assert (Hs4 : (if flag =? 0 then fold_left (fun s (_ : nat) => snd (s_uint s)) (seq 0 12) (mkS b5 None) else mkS b5 None)
+                = mkS b6 None).
+  { destruct (flag =? 0).
+    - unfold rd_count in Eo. destruct (N.of_nat (length b5) <? 12); [discriminate|].
+      exact (skip_uints_ok _ _ _ _ _ Eo).
+    - injection Eo as _ <-. reflexivity. }
+  rewrite Hs4. cbn [s_bs].
+  apply (loop_ok (S (length b6)) (flag =? 0) (d_init u) b6 L (q_init u)); [apply srel_init|exact H|lia].
+Qed.
+
+(* the statement for ALL byte streams is false (see the *_refuted lemmas below); proved part: every stream the covered
+   restriction of the strict decoder accepts *)
+Theorem oas_reader_accepts_spec_partial_lemma : forall bs L,
+  spec_oas_decode bs = Some L -> covered bs -> read_oas_model bs = Ok (view L).
+Proof.
+  intros bs L Hs Hc. unfold covered in Hc.
+  destruct (cov_oas_decode bs) as [L'|] eqn:E; [|congruence].
+  pose proof (cov_refines_spec_lemma _ _ E) as Hs'. rewrite Hs in Hs'. injection Hs' as ->.
+  apply cov_reader_ok_lemma. exact E.
+Qed.
+
+(* ================================================================== examples and counterexamples *)
+Definition w_hdr : list N := magic ++ [1; 3; 49; 46; 48; 0; 1; 1].
+Definition w_cell_a : list N := [14; 1; 65].
+Definition w_prop : list N := [28; 20; 1; 80; 8; 7].          (* PROPERTY "P" = (unsigned 7) *)
+
+(* the hypotheses of the partial theorem are satisfiable: CELL "A", a RECTANGLE with a repetition, a by-number TEXT whose
+   TEXTSTRING comes later, a PLACEMENT, a property *)
+Definition ex_covered : list N :=
+  w_hdr ++ w_cell_a ++ [20; 127; 1; 0; 10; 20; 3; 5; 2; 1; 7] ++ w_prop ++ [19; 123; 0; 1; 0; 2; 4]
+        ++ [17; 176; 1; 66; 6; 8] ++ [5; 1; 84] ++ end_record.
+Example ex_covered_ok : covered ex_covered /\ exists L, spec_oas_decode ex_covered = Some L /\ read_oas_model ex_covered = Ok (view L).
+Proof.
+  split; [unfold covered; vm_compute; discriminate|].
+  destruct (cov_oas_decode ex_covered) as [L|] eqn:E; [|vm_compute in E; discriminate].
+  exists L. split; [apply cov_refines_spec_lemma; exact E|apply cov_reader_ok_lemma; exact E].
+Qed.
+
+(* The statement for ALL streams of the strict decoder is false.  Each witness below is accepted by spec_oas_decode and
+   loaded differently (or not at all) by the reader model; the real read_oas was run on the same bytes and agrees with
+   the model (see the report of unit c04r). *)
+Definition refutes (bs : list N) : Prop :=
+  exists L, spec_oas_decode bs = Some L /\ read_oas_model bs <> Ok (view L).
+Ltac refute := unfold refutes; eexists; split; [vm_compute; reflexivity|vm_compute; discriminate].
+
+(* a record id written as the two-byte unsigned integer 0x80 0x00 (PAD): UnsupportedRecord *)
+Definition w1_nonminimal_record_id : list N := w_hdr ++ [128; 0] ++ end_record.
+(* layer 2^32: truncated to 0 *)
+Definition w2_layer_2pow32 : list N := w_hdr ++ w_cell_a ++ [20; 123; 128; 128; 128; 128; 16; 0; 1; 1; 0; 0] ++ end_record.
+(* a PROPERTY after a TEXTSTRING record is copied onto the labels that use the string *)
+Definition w3_textstring_props : list N := w_hdr ++ [5; 1; 84] ++ w_prop ++ w_cell_a ++ [19; 123; 0; 1; 0; 0; 0] ++ end_record.
+(* a PROPERTY after a LAYERNAME record is attached to the element before it *)
+Definition w4_layername_props : list N :=
+  w_hdr ++ w_cell_a ++ [20; 123; 1; 0; 1; 1; 0; 0] ++ [11; 1; 76; 0; 0] ++ w_prop ++ end_record.
+(* CTRAPEZOID type 25 leaves the modal height alone: the next RECTANGLE re-using it is 5 x 20, not 5 x 5 *)
+Definition w5_ctrapezoid25_modal : list N :=
+  w_hdr ++ w_cell_a ++ [20; 123; 1; 0; 10; 20; 0; 0] ++ [26; 192; 25; 5] ++ [20; 0] ++ end_record.
+(* two CELL records with the same reference number: the CELLNAME properties go to the first only *)
+Definition w6_two_cells_same_number : list N := w_hdr ++ [3; 1; 65] ++ w_prop ++ [13; 0] ++ [13; 0] ++ end_record.
+(* a PATH with an empty point list: `last_ctrl = point_array[count - 2]` reads before the array *)
+Definition w7_empty_path : list N := w_hdr ++ w_cell_a ++ [22; 251; 1; 0; 2; 5; 4; 0; 0; 0] ++ end_record.
+(* repetition type 2 with x-dimension 2^64 - 2: `2 + n` wraps to 0 columns *)
+Definition w8_repetition_count_wrap : list N :=
+  w_hdr ++ w_cell_a ++ [20; 127; 1; 0; 1; 1; 0; 0; 2; 254; 255; 255; 255; 255; 255; 255; 255; 255; 1; 3] ++ end_record.
+(* a PROPERTY after a PROPNAME record (not part of the layout) whose name is an undefined reference number: resolved at
+   END all the same, out of the bounds of the table *)
+Definition w9_dropped_property_dangling_name : list N := w_hdr ++ [7; 1; 78] ++ [28; 22; 5; 8; 7] ++ end_record.
+
+Lemma oas_reader_accepts_spec_refuted_nonminimal : refutes w1_nonminimal_record_id. Proof. refute. Qed.
+Lemma oas_reader_accepts_spec_refuted_layer32 : refutes w2_layer_2pow32. Proof. refute. Qed.
+Lemma oas_reader_accepts_spec_refuted_textstring_props : refutes w3_textstring_props. Proof. refute. Qed.
+Lemma oas_reader_accepts_spec_refuted_layername_props : refutes w4_layername_props. Proof. refute. Qed.
+Lemma oas_reader_accepts_spec_refuted_ctrapezoid25 : refutes w5_ctrapezoid25_modal. Proof. refute. Qed.
+Lemma oas_reader_accepts_spec_refuted_same_cell_number : refutes w6_two_cells_same_number. Proof. refute. Qed.
+Lemma oas_reader_accepts_spec_refuted_empty_path : refutes w7_empty_path. Proof. refute. Qed.
+Lemma oas_reader_accepts_spec_refuted_count_wrap : refutes w8_repetition_count_wrap. Proof. refute. Qed.
+Lemma oas_reader_accepts_spec_refuted_dangling_name : refutes w9_dropped_property_dangling_name. Proof. refute. Qed.
+
+Theorem oas_reader_accepts_spec_refuted_lemma :
+  exists bs L, spec_oas_decode bs = Some L /\ read_oas_model bs <> Ok (view L).
+Proof. destruct oas_reader_accepts_spec_refuted_nonminimal as (L & H1 & H2). eauto. Qed.
+
+(* the element of a CTRAPEZOID of type 25 itself is loaded correctly (only the modal height differs) *)
+Lemma rd_ctrapezoid25_element_lemma m q info bs e m' bs' :
+  modal_rel m q -> cov_ctrapezoid_gen true m (info :: bs) = Some (e, m', bs') ->
+  exists q', m_ctrapezoid q info (mkS bs None) = ROk (welem e, q') (mkS bs' None).
+Proof. intros R H. destruct (rd_ctrapezoid_ok true _ _ _ _ _ _ _ R H) as (q' & H1 & _). eauto. Qed.
